@@ -92,7 +92,7 @@ GEO_POST = {
     "table_updated_at_most_once": "n_updates() <= 1",
     "delivery_needs_fresh_update": "implies(result is not None, n_updates() == 1)",
     "forward_needs_fresh_update": "implies(n_emitted() > 0, n_updates() == 1)",
-    "delivered_iff_inside": "implies(n_updates() == 1 and be(packet, 40, 2) == 0, (result is not None) == (F_area(common_header.hst.value, be(packet, 36, 2), be(packet, 38, 2), 0, sgn(be(packet, 28, 4), 32), sgn(be(packet, 32, 4), 32), self.ego_position_vector.latitude, self.ego_position_vector.longitude) >= 0))",
+    "delivered_iff_inside": "implies(n_updates() == 1, (result is not None) == (F_area(common_header.hst.value, be(packet, 36, 2), be(packet, 38, 2), be(packet, 40, 2), sgn(be(packet, 28, 4), 32), sgn(be(packet, 32, 4), 32), self.ego_position_vector.latitude, self.ego_position_vector.longitude) >= 0))",
     "indication": "implies(result is not None, indication_ok(result, common_header, basic_header, 4, packet, 44) and result.packet_transport_type.header_type == common_header.ht and result.packet_transport_type.header_subtype == common_header.hst)",
     "indication_area": "implies(result is not None, result.destination_area.latitude == sgn(be(packet, 28, 4), 32) and result.destination_area.longitude == sgn(be(packet, 32, 4), 32) and result.destination_area.a == be(packet, 36, 2) and result.destination_area.b == be(packet, 38, 2) and result.destination_area.angle == be(packet, 40, 2))",
     "at_most_one_forward": "n_emitted() <= 1",
@@ -102,13 +102,21 @@ GEO_POST = {
     "forward_common_unchanged": "implies(n_emitted() == 1, emitted0()[4:12] == common_header_int(common_header).to_bytes(8, 'big'))",
     "forward_rest_identical": "implies(n_emitted() == 1 and lpv_conformant(packet, 4), emitted0()[12:] == packet)",
 }
+import copy as _copy
+ROUTER_CBFK = _copy.copy(ROUTER)
+ROUTER_CBFK.fields = dict(ROUTER.fields, _cbf_buffer=T.keymap("cbf_buffer", T.tuple(GNADDR, T.int(0, 65535)), T.opaque("timer")))
+GBC_POST = dict(GEO_POST)
+GBC_POST["duplicate_overheard_drops_the_copy_waiting_in_the_cbf_buffer"] = (
+    "implies(len(ghost('lt_duplicates')) == 1 and old(map_has(self._cbf_buffer, map_key0(self._cbf_buffer))), "
+    "not map_has(self._cbf_buffer, old(map_key0(self._cbf_buffer))) and len(ghost('timers_cancelled')) == 1 "
+    "and ghost('timers_cancelled')[0] is old(map_get(self._cbf_buffer, map_key0(self._cbf_buffer))) and n_emitted() == 0)")
 contract(f"{RT}:Router.gn_data_indicate_gbc", returns=ind_of("GeoBroadcastHST"), props=["C06", "C01", "C07", "C08", "C20", "C04"],
-         shapes={"self": ROUTER, "packet": T.bytes(0, 2000), "common_header": common_of("GEOBROADCAST", "GeoBroadcastHST"),
+         shapes={"self": ROUTER_CBFK, "packet": T.bytes(0, 2000), "common_header": common_of("GEOBROADCAST", "GeoBroadcastHST"),
                  "basic_header": BASIC},
-         requires=RX_PRE + ["self.mib.itsGnMaxGeoAreaSize >= 0", "self.mib.itsGnDefaultMaxCommunicationRange > 0", "0 <= self.mib.itsGnCbfMinTime <= self.mib.itsGnCbfMaxTime"], opaque=["F_area", "area_size_m2"],
+         requires=RX_PRE + ["implies(len(packet) >= 44, map_key0(self._cbf_buffer) == cbf_key_of(packet))", "self.mib.itsGnMaxGeoAreaSize >= 0", "self.mib.itsGnDefaultMaxCommunicationRange > 0", "0 <= self.mib.itsGnCbfMinTime <= self.mib.itsGnCbfMaxTime"], opaque=["F_area", "area_size_m2"],
          inline=[f"{RT}:Router.gn_data_forward_gbc", f"{RT}:Router.gn_area_cbf_forwarding"],
          raises={DE: "len(packet) < 44", "ValueError": "len(packet) >= 44 and st_field(packet, 4) > 12"},
-         ensures=GEO_POST, cover=["result is not None", "n_sent() == 1", "n_timers() == 1"], **S)
+         ensures=GBC_POST, cover=["result is not None", "n_sent() == 1", "n_timers() == 1", "len(ghost('timers_cancelled')) == 1"], **S)
 GAC_POST = dict(GEO_POST)
 GAC_POST["inside_never_forwards"] = "implies(result is not None, n_emitted() == 0)"
 contract(f"{RT}:Router.gn_data_indicate_gac", returns=ind_of("GeoAnycastHST"), props=["C06", "C01", "C07", "C08", "C20", "C04"],
@@ -162,7 +170,7 @@ contract(f"{RT}:Router.process_common_header", props=["C20", "C01", "C04", "C06"
          modifies=["self.sequence_number"], frame_check=False, **S)
 
 contract(f"{RT}:Router.gn_data_indicate_ls_reply", props=["C06", "C01", "C08", "C04"],
-         shapes={"self": ROUTER, "packet": T.bytes(0, 2000), "common_header": common_of("LS", "LocationServiceHST", ["LS_REPLY"]),
+         bound="LS packet buffer holding 0..2 requests (flush clauses); all other clauses unbounded", shapes={"self": ROUTER, "packet": T.bytes(0, 2000), "common_header": common_of("LS", "LocationServiceHST", ["LS_REPLY"]),
                  "basic_header": BASIC},
          requires=RX_PRE,
          raises={DE: "len(packet) < 48",
